@@ -54,6 +54,16 @@ impl VarDecl {
             raw: None,
         }
     }
+    /// The solver's constant literal (`Solver::get_true_literal`): a literal variable whose only
+    /// value is 1; its negative reference is `get_false_literal`.
+    pub fn const_true() -> Self {
+        VarDecl {
+            values: vec![1],
+            kind: VarKind::Lit,
+            def: None,
+            raw: None,
+        }
+    }
     /// A sparse variable created from the given list as it is (order and repetitions kept).
     pub fn sparse_raw(list: &[i32], named: bool) -> Self {
         let mut d = VarDecl::sparse(list);
@@ -687,6 +697,7 @@ impl Model {
                     },
                     VarKind::Lit => match v.def {
                         Some(p) => format!("lit({p})"),
+                        None if v.values == [1] => "true-lit".to_string(),
                         None => "lit".to_string(),
                     },
                 };
